@@ -29,7 +29,7 @@ async def main():
     while not part.at_eof():
         got += await part.read_chunk(8)
     print(bytes(got))
-    return 0 if bytes(got) == b"\r\nfirst-abcdefghij" else 1
+    return 0 if bytes(got) == b"first-abcdefghij" else 1
 
 
 sys.exit(asyncio.run(main()))
